@@ -25,6 +25,34 @@ def prepare(scratch, units):
     os.makedirs(hdir, exist_ok=True)
     for u in units:
         cfg = u["cfg"]
+        if cfg.get("standalone"):
+            # Extraction route for items an injected module cannot name (fn nested in a fn):
+            # the item text is copied verbatim into a dependency-free crate.
+            cdir = os.path.join(scratch.root, "standalone", u["name"])
+            os.makedirs(os.path.join(cdir, "src"))
+            parts = ["#![allow(dead_code, unused)]\n"]
+            for ex in cfg["extract"]:
+                if not os.path.exists(scratch.path(ex["file"])):
+                    raise Undecided("lost anchor: %s does not exist" % ex["file"])
+                text = scratch.read(ex["file"])
+                try:
+                    it = rs.find_item(text, ex["item"])
+                except rs.ScanError as e:
+                    raise Undecided("lost anchor: %s in %s (%s)" % (ex["item"], ex["file"], e))
+                parts.append("// extracted verbatim from %s :: %s\n%s\n" % (ex["file"], " :: ".join(ex["item"]), text[it.start:it.end]))
+                edits.append("extract verbatim %s :: %s into a stand-alone crate (enclosing item and rest of file dropped)"
+                             % (ex["file"], " :: ".join(ex["item"])))
+            hsrc = os.path.join(u["dir"], cfg["harness"])
+            hdst = os.path.join(cdir, "src", "verif_harness.rs")
+            shutil.copy(hsrc, hdst)
+            parts.append("#[cfg(kani)] mod verif_harness;\n")
+            with open(os.path.join(cdir, "src", "lib.rs"), "w") as f:
+                f.write("\n".join(parts))
+            with open(os.path.join(cdir, "Cargo.toml"), "w") as f:
+                f.write('[package]\nname = "verif_%s"\nversion = "0.0.0"\nedition = "2021"\n[workspace]\n' % u["name"])
+            cfg["package_dir"] = os.path.relpath(cdir, scratch.src)
+            cfg["inject"] = [{"_scratch_harness": hdst, "file": None}]
+            continue
         for inj in cfg.get("inject", []):
             src = os.path.join(u["dir"], inj["harness"])
             dst = os.path.join(hdir, "%s__%s" % (u["name"], os.path.basename(inj["harness"])))
@@ -147,11 +175,11 @@ def _collect(res, obs, out, info):
             continue
         ob.seconds = r.get("duration_ms", 0) / 1000.0
         d = pd.get(ob.harness, {})
-        ob.vcs = d.get("total_properties", len(r.get("checks", [])))
+        ob.vcs = d.get("total_properties") or len(r.get("checks") or [])
         info["cbmc_properties"] += ob.vcs
-        st = cb.get(ob.harness, {}).get("cbmc_stats", {})
+        st = (cb.get(ob.harness) or {}).get("cbmc_stats") or {}
         info["solver_s"] += float(st.get("runtime_decision_procedure_s", 0) or 0) + float(st.get("runtime_solver_s", 0) or 0)
-        checks = r.get("checks", [])
+        checks = r.get("checks") or []
         bad = [c for c in checks if c.get("status") not in ("Success", "Unreachable", "Satisfied", "SUCCESS", "UNREACHABLE", "SATISFIED")]
         if r.get("status") == "Success":
             # vacuity: every cover in the harness must be satisfied, and there must be checks
